@@ -64,6 +64,8 @@ type fakeSvc struct {
 	primary   bool
 	serverErr error
 	honest    proto.Message // the honest primary response of this call
+	// when set, the SQL get request is rewritten before the database sees it (a server answering another question)
+	rewriteSQLGet func(req *schema.VerifiableSQLGetRequest)
 	sent      proto.Message // what the client received
 }
 
@@ -251,6 +253,7 @@ func sites(r *rand.Rand, root proto.Message) []site {
 			fd := fds.Get(i)
 			path := prefix + "." + string(fd.Name())
 			if fd.IsMap() {
+				mapSites(r, m, fd, path+"{}", &out)
 				continue
 			}
 			if fd.IsList() {
@@ -394,6 +397,11 @@ type dbworld struct {
 	signer func(st *schema.ImmutableState) error
 	pub    *ecdsa.PublicKey
 	mu     sync.Mutex
+
+	// SQL part of the history (l3sql.go)
+	sqlTxs     map[uint64]bool
+	sqlRows    map[string]*sqlRow
+	sqlRowKeys []string
 }
 
 func mdEqual(a, b *schema.KVMetadata) bool {
@@ -561,6 +569,10 @@ func buildDBWorld(c *fw.Ctx, name string, n int, withSigner bool) (*dbworld, err
 			w.keys = append(w.keys, key)
 		}
 	}
+	w.sqlTxs = map[uint64]bool{}
+	if err := w.buildSQL(c, c.Rand("c01/l3/sqlworld/"+name), 6); err != nil {
+		return nil, fmt.Errorf("SQL history: %w", err)
+	}
 	if err := w.refreshChain(); err != nil {
 		return nil, err
 	}
@@ -679,6 +691,10 @@ func (k *cl) stateFalsehood(trusted uint64) string {
 		}
 	case *schema.VerifiableTx:
 		dp = safeDual(m.DualProof)
+	case *schema.VerifiableSQLEntry:
+		if m.VerifiableTx != nil {
+			dp = safeDual(m.VerifiableTx.DualProof)
+		}
 	}
 	if trusted > 0 && dp != nil {
 		var ta H
@@ -1145,6 +1161,15 @@ func layer3(c *fw.Ctx) {
 				mkWrite("VerifiedZAdd", fmt.Sprintf("set zs score %v key %q", score, target), func(k *cl) (any, error) { return k.c.VerifiedZAdd(ctx, []byte("zs"), score, target) },
 					func(hdr *schema.TxHeader) { w.refs[hdr.Id] = append(w.refs[hdr.Id], refrec{}) })
 			}
+		}
+
+		// SQL rows: VerifyRow with true rows under every alteration of the response ...
+		scs = append(scs, w.sqlScenarios(c, c.Rand("c01/l3/sqlplan/"+sp.name), c.N(6, 14))...)
+		// ... and with false rows, which no server behaviour may get accepted
+		{
+			a := newAcc(c)
+			w.falseRows(c, a, c.Rand("c01/l3/sqlfalse/"+sp.name), c.N(5, 12), c.N(40, 120))
+			a.flush()
 		}
 
 		c.Set("l3_scenarios_"+sp.name, len(scs))
